@@ -183,6 +183,9 @@ class Intrinsics:
         if isinstance(v, containers.SymSet):   # absnodes
             from . import absnodes
             return absnodes.set_len(P, v)
+        if type(v).__name__ == 'AbsList':   # abslist
+            from . import abslist
+            return abslist.length(P, v)
         raise Unsupported(f'len of {v!r}')
 
     def _minmax(self, P, args, kwargs, is_min):
@@ -991,6 +994,23 @@ class Intrinsics:
 
     def s_seq_len(self, P, seq):
         return containers.seq_len(P, seq)
+
+    # abslist (C14y): abstract lists
+    def s_alist_len(self, P, v):
+        from . import abslist
+        return abslist.s_len(P, v)
+
+    def s_alist_parts(self, P, v):
+        from . import abslist
+        return abslist.s_parts(P, v)
+
+    def s_alist_same(self, P, a, b):
+        from . import abslist
+        return abslist.s_same(P, a, b)
+
+    def s_alist_all(self, P, fn, v):
+        from . import abslist
+        return abslist.s_all(P, fn, v)
 
     # absnodes (C07): total accessors over abstract keys / set-valued maps
     def s_key_attr(self, P, k, attr):
